@@ -24,6 +24,21 @@ CHECKS = {
     note="Trusts TLC/SANY, Go toolchain, the recording appender plugin. Explicit '~MAX' on a reference is not generated (property silent). Concrete level placement is sampled by seed, structure is exhaustive.",
     technique="TLA+ spec (Levels) model-checked with TLC; emitted cases replayed through Refresh + 15 entry points",
     design="4/C01", engine="levels"),
+ "C16": dict(
+    text="LogSystem.tla models the lifecycle (fresh/live/failed-late/destroyed), the tag and handle registries, both valid configurations, early and late Refresh failures, Destroy, logging and raw writes, with action properties SecondRefreshRejected, DestroyIdempotent, RegistrationOnlyWithoutLiveCfg and invariants NoCfgMeansConsole, RoutesAsConfigured. TLC emits every history of length 4 (quick) / 5 (thorough) plus simulated histories of length 9 with the expected observation of every step; the replayer executes each on the real library with sync and async loggers, every call under a 3 s watchdog and recover, observing recording appenders and the console stream.",
+    note="Trusts TLC/SANY, Go toolchain, recording appender plugin, VerifReset. After a late Refresh failure and until Destroy only no-panic/no-block is required (property silent).",
+    technique="TLA+ spec (LogSystem) model-checked with TLC; all bounded histories + simulated ones replayed step by step on the real code",
+    design="4/C16", engine="lifecycle"),
+ "C10": dict(
+    text="LogSystem.tla restricted to Refresh/Destroy/SetHooks/Log(lazy|plain): invariant HooksIffEmitted (each installed hook and a lazy generator exactly once iff the event is enabled at the serving logger). All histories of length 3 and simulated ones of length 7 are replayed with counting hooks that record the context they receive; each abstract Log step is concretised to one of the 15 entry points on the required side of a level range that may be bounded from below or above; records are inspected at recording appenders and on the console line (hook time, context string, context fields ahead of own fields). A gated asynchronous run checks that queued records keep their own fields when the hook returns slices over one shared array.",
+    note="Trusts TLC/SANY, Go toolchain, recording appender plugin; hooks are process-global function variables set by the harness.",
+    technique="TLA+ spec (LogSystem, hooks alphabet) model-checked with TLC; histories replayed with counting hooks",
+    design="4/C10", engine="lifecycle"),
+ "C12": dict(
+    text="LogSystem.tla restricted to Refresh(A|B)/Destroy/GetLogger/Write: invariants RoutesAsConfigured, LiveHandlesAreConfigured, NoCfgMeansConsole. All histories of length 5 plus simulated ones of length 9 are replayed (sync and async): a raw write must reach every appender of the named logger exactly once although one reference's level range admits nothing, verbatim although the caller overwrites its buffer after the call, and return (len, nil); same name gives the same handle; Refresh fails for an unconfigured handle name. A payload sweep (empty, 1 byte, binary, multi-line, 1 MiB) x 9 logger kinds x 1-8 concurrent writers recycling one buffer checks verbatim / exactly-once / per-writer order in recording appenders, files and the console stream.",
+    note="Trusts TLC/SANY, Go toolchain, recording appender plugin. Queue-level ordering of raw writes is additionally covered by the AsyncLogger module.",
+    technique="TLA+ spec (LogSystem, write alphabet) model-checked with TLC; histories replayed + payload/kind/concurrency sweep",
+    design="4/C12", engine="lifecycle"),
 }
 
 NOT_YET = {}
